@@ -145,6 +145,22 @@ Proof. exact text_plain_string. Qed.
 Theorem C12_refuted : ~ C12_full_statement.
 Proof. exact full_statement_refuted. Qed.
 
+(* the statement on the complement of that finding: the document holds the trait constant in one of
+   the ways the decoders have a family for (plain string, string kind, int64 kind, uint64 kind,
+   self-unmarshaling type) *)
+Theorem C12_partial : forall d o t, wf_defn d -> gen d o = Built t ->
+  forall c r jv, In c (t_cols t) -> col_parsable c = true -> In r (col_rows c) ->
+  json_holds_decodable c jv (cl_val (r_cell r)) ->
+  unambiguous t (json_attempts t jv) (g_z (r_owner r)) ->
+  decode_json t jv = Some (g_z (r_owner r)).
+Proof. exact json_partial. Qed.
+Theorem C12_partial_yaml : forall d o t, wf_defn d -> gen d o = Built t ->
+  forall c r yv, In c (t_cols t) -> col_parsable c = true -> In r (col_rows c) ->
+  yaml_holds_decodable c yv (cl_val (r_cell r)) ->
+  unambiguous t (yaml_attempts_gen true t yv) (g_z (r_owner r)) ->
+  decode_yaml t yv = Some (g_z (r_owner r)).
+Proof. exact yaml_partial. Qed.
+
 (* ---------------------------------------------------------------- the pinned generator (records) *)
 Theorem C12_duplicate_case_orig_refuted :
   is_builderr (gen_orig w_dup_cells (opts_with [])) = true /\ is_built (gen w_dup_cells (opts_with [])) = true.
@@ -195,6 +211,8 @@ Print Assumptions C12_decode_yaml_native.
 Print Assumptions C12_decode_text_string.
 Print Assumptions C12_decode_text_plain_string.
 Print Assumptions C12_refuted.
+Print Assumptions C12_partial.
+Print Assumptions C12_partial_yaml.
 Print Assumptions C12_duplicate_case_orig_refuted.
 Print Assumptions C12_row_index_orig_refuted.
 Print Assumptions C12_row_index2_orig_refuted.
